@@ -3,6 +3,8 @@ package main
 import (
 	"fmt"
 	"go/types"
+	"sort"
+	"strings"
 
 	"golang.org/x/tools/go/ssa"
 )
@@ -17,12 +19,24 @@ func ruleScale(c *Ctx) {
 		if fn == nil {
 			continue
 		}
-		if len(fn.Params) != 4 {
-			c.Undecided(R4, name, fn.Pos(), "expected parameters (bc, width, height, fill)")
-			continue
+		// analysed in the calling context of ScaleWithFill(bc, W, H, fill): the roles are those of the
+		// exported entry point, however the request is handed on (scalars or a small struct)
+		var n *Normer
+		if swf := c.P.Func("barcode.ScaleWithFill"); swf != nil && len(swf.Params) == 4 {
+			if sites := c.P.deepCallsTo(swf, fn); len(sites) == 1 {
+				n = NewNormer(c.P)
+				n.BindParams(swf, "bc", "W", "H", "fill")
+				n.Ctx = append(append([]ssa.CallInstruction{}, sites[0].Path...), sites[0].Ins.(*ssa.Call))
+			}
 		}
-		n := NewNormer(c.P)
-		n.BindParams(fn, "bc", "W", "H", "fill")
+		if n == nil {
+			if len(fn.Params) != 4 {
+				c.Undecided(R4, name, fn.Pos(), "not called once from ScaleWithFill and not of the form (bc, width, height, fill)")
+				continue
+			}
+			n = NewNormer(c.P)
+			n.BindParams(fn, "bc", "W", "H", "fill")
+		}
 		// the source bounds, wherever they are taken (directly or in a helper)
 		n.AtomAlias["invoke:Bounds(bc)"] = "B"
 		m := map[string]string{
@@ -63,28 +77,48 @@ func ruleScale(c *Ctx) {
 			continue
 		}
 		args := call.Common().Args
-		c.expectPoly(R4, name+"/wrapped", call.Pos(), n, args[0], "bc")
-		rect, ok := args[2].(*ssa.Call)
-		if !ok || calleeFull(rect) != "image.Rect" {
-			c.Check(R4, name+"/rect", call.Pos(), false, "image.Rect(0,0,W,H)", args[2].String())
-		} else {
-			ra := rect.Common().Args
-			good := true
-			for i, want := range []string{"0", "0", "W", "H"} {
-				if !pEqual(n.Norm(ra[i]), MustRef(want)) {
-					good = false
-				}
-			}
-			c.Check(R4, name+"/rect", rect.Pos(), good, "image.Rect(0,0,W,H)", fmt.Sprintf("image.Rect(%s,%s,%s,%s)", n.Norm(ra[0]), n.Norm(ra[1]), n.Norm(ra[2]), n.Norm(ra[3])))
+		// what the wrapper is built from: the fields newScaledBC stores, evaluated in this calling context
+		{
+			saved := n.Ctx
+			n.Ctx = append(append([]ssa.CallInstruction{}, saved...), call)
+			fields := scaledFields(n, calleeOf(call))
+			n.Ctx = saved
+			c.Check(R4, name+"/wrapped", call.Pos(), fields["wrapped"] == "bc", "bc", fields["wrapped"])
+			c.Check(R4, name+"/rect", call.Pos(), fields["rect"] == "call:image.Rect(0,0,W,H)", "image.Rect(0,0,W,H)", fields["rect"])
 		}
-		mc, ok := strip(args[1]).(*ssa.MakeClosure)
+		wrapArg := argOfKind(args, func(t types.Type) bool { _, ok := t.Underlying().(*types.Signature); return ok })
+		if wrapArg == nil {
+			c.Undecided(R4, name+"/wrap", call.Pos(), "no wrapper function handed to newScaledBC")
+			continue
+		}
+		mc, ok := strip(wrapArg).(*ssa.MakeClosure)
 		if !ok {
-			c.Undecided(R4, name+"/wrap", call.Pos(), "wrapper function is not a closure literal")
+			c.Undecided(R4, name+"/wrap", call.Pos(), "wrapper function is not a closure literal or method value")
 			continue
 		}
 		cl := mc.Fn.(*ssa.Function)
-		c.Fn(c.P.FuncName(cl))
-		n.BindParams(cl, "x", "y")
+		if strings.Contains(cl.Synthetic, "bound method") && len(mc.Bindings) == 1 {
+			// a method value: the body is the method, its receiver is the struct built in this function
+			var real *ssa.Function
+			eachInstr(cl, func(b *ssa.BasicBlock, ins ssa.Instruction) {
+				if cc, ok := ins.(*ssa.Call); ok && cc.Common().StaticCallee() != nil {
+					real = cc.Common().StaticCallee()
+				}
+			})
+			recvAlloc, _, isAlloc := rootAlloc(mc.Bindings[0])
+			if real == nil || !isAlloc || len(real.Params) != 3 {
+				c.Undecided(R4, name+"/wrap", call.Pos(), "method value whose receiver is not a struct built here")
+				continue
+			}
+			ptrAlias[real.Params[0]] = recvAlloc
+			defer delete(ptrAlias, real.Params[0])
+			cl = real
+			c.Fn(c.P.FuncName(cl))
+			n.Bind[cl.Params[1]], n.Bind[cl.Params[2]] = "x", "y"
+		} else {
+			c.Fn(c.P.FuncName(cl))
+			n.BindParams(cl, "x", "y")
+		}
 		fillCond := cFalse
 		atRets := 0
 		for _, ret := range returnsOf(cl) {
@@ -155,13 +189,14 @@ func ruleScale(c *Ctx) {
 			}
 			seen[cn] = true
 			c.expectCond(R3, "barcode.ScaleWithFill/"+cal.Name()+"-iff", call.Pos(), rc, want)
-			good := true
-			for i, w := range []string{"bc", "W", "H", "fill"} {
-				if !pEqual(n.Norm(call.Common().Args[i]), MustRef(w)) {
-					good = false
-				}
+			// the request is handed on completely (as scalars or grouped); which value plays which role
+			// inside is decided by X4, which analyses the callee in this calling context
+			var flat []string
+			for _, a := range flattenArgs(call.Common().Args) {
+				flat = append(flat, n.Norm(a).String())
 			}
-			c.Check(R3, "barcode.ScaleWithFill/"+cal.Name()+"-args", call.Pos(), good, "(bc, W, H, fill)", call.String())
+			sort.Strings(flat)
+			c.Check(R3, "barcode.ScaleWithFill/"+cal.Name()+"-args", call.Pos(), fmt.Sprint(flat) == "[H W bc fill]", "(bc, W, H, fill)", fmt.Sprint(flat))
 		}
 		c.Check(R3, "barcode.ScaleWithFill/arms", fn.Pos(), len(seen) == 3, "1D arm, 2D arm, error arm", fmt.Sprint(seen))
 	}
@@ -278,9 +313,16 @@ func ruleScale(c *Ctx) {
 		}
 		c.Check(R1, "barcode.(*intCSscaledBC).CheckSum/forwards", fn.Pos(), fw == 1, "one forwarding return", fmt.Sprint(fw))
 	}
-	if fn := c.theFunc(R1, "barcode.newScaledBC"); fn != nil && len(fn.Params) == 3 {
+	if fn := c.theFunc(R1, "barcode.newScaledBC"); fn != nil {
 		n := NewNormer(c.P)
-		n.BindParams(fn, "wrapped", "wrap", "rect")
+		isRect := func(t types.Type) bool { return namedTypeName(t) == "image.Rectangle" }
+		isFn := func(t types.Type) bool { _, ok := t.Underlying().(*types.Signature); return ok }
+		bindByType(n, fn, roleSpec{"wrapped", isBarcodeIface}, roleSpec{"wrap", isFn})
+		if !bindByType(n, fn, roleSpec{"rect", isRect}) {
+			// the bounds are built here from the requested width and height
+			bindByType(n, fn, roleSpec{"W", isIntType}, roleSpec{"H", isIntType})
+			n.AtomAlias["call:image.Rect(0,0,W,H)"] = "rect"
+		}
 		// stores of the three fields
 		var base *ssa.Alloc
 		fields := map[string]string{}
@@ -329,4 +371,29 @@ func ruleScale(c *Ctx) {
 			}
 		}
 	}
+}
+
+// scaledFields: the values stored into the fields of the scaledBarcode that newScaledBC builds.
+func scaledFields(n *Normer, fn *ssa.Function) map[string]string {
+	fields := map[string]string{}
+	if fn == nil {
+		return fields
+	}
+	eachInstr(fn, func(b *ssa.BasicBlock, ins ssa.Instruction) {
+		st, ok := ins.(*ssa.Store)
+		if !ok {
+			return
+		}
+		fa, ok := st.Addr.(*ssa.FieldAddr)
+		if !ok {
+			return
+		}
+		a, ok := fa.X.(*ssa.Alloc)
+		if !ok || namedTypeName(a.Type()) != "barcode.scaledBarcode" {
+			return
+		}
+		stt := a.Type().Underlying().(*types.Pointer).Elem().Underlying().(*types.Struct)
+		fields[fname(stt.Field(fa.Field))] = n.Norm(st.Val).asAtom()
+	})
+	return fields
 }
